@@ -76,6 +76,7 @@ var leafCatalog = []leafSpec{
 	{"**int", 2, "double-pointer", "", keyFlagDoublePtr, "", ""},
 	// a pointer to a pointer to a struct
 	{expr: "**Pt", w: 2, class: "double-pointer", envKey: keyPtrPtrStruct, flagKey: keyPtrPtrStruct, pflagKey: keyPtrPtrStruct},
+	{expr: "**Phase", w: 1, class: "double-pointer", envKey: "", flagKey: keyFlagNamedComplex},
 	// collections of collections
 	{"[][]string", 2, "nested-collection", keyNestedCollection, "", "", ""},
 	{"[]Names", 2, "nested-collection", keyNestedCollection, "", "", ""},
@@ -145,15 +146,41 @@ var structuredLeaves = []leafSpec{
 	{"[2]Small", 1, "struct-elem", "", "", "", ""},
 	{"*Small", 1, "user-pointer", "", "", "", ""},
 	{"map[string]Small", 1, "struct-elem", "", "", "", ""},
+	// element structs whose fields (arrays included) carry dialsalias tags
+	{expr: "[]AliasElem", w: 6, class: "alias-elem"},
+	{expr: "[2]AliasElem", w: 4, class: "alias-elem"},
+	{expr: "[]*AliasElem", w: 2, class: "alias-elem"},
+	{expr: "map[string]AliasElem", w: 1, class: "alias-elem"},
 	// element structs with an unexported field
 	{expr: "[]HidRec", w: 2, class: "struct-elem", decKey: keyElemUnexported},
 	{expr: "[2]HidRec", w: 1, class: "struct-elem", decKey: keyElemUnexported},
 	{expr: "map[string]HidRec", w: 1, class: "struct-elem"},
 }
 
+// flagKindLeaves complete the flag / pflag grammar with every leaf type the
+// two sources register a flag for (the shared catalog has only a few).
+var flagKindLeaves = func() []leafSpec {
+	var out []leafSpec
+	for _, e := range []string{"int8", "int16", "int32", "int64", "uint", "uint16", "uint32", "uint64", "float32", "complex64",
+		"[]int8", "[]int16", "[]int32", "[]int64", "[]uint", "[]uint8", "[]uint16", "[]uint32", "[]uint64", "[]int", "[]string",
+		"map[string]string", "map[string][]string", "map[string]struct{}"} {
+		w := 2
+		if strings.HasPrefix(e, "[]") {
+			w = 5
+		} else if strings.HasPrefix(e, "map[") {
+			w = 3
+		}
+		out = append(out, leafSpec{expr: e, w: w, class: "flag-kind"})
+	}
+	return out
+}()
+
 var leafClassOf = func() map[string]string {
 	m := map[string]string{}
-	for _, l := range append(append(append([]leafSpec{}, leafCatalog...), structuredLeaves...), flagValueLeaves...) {
+	for _, l := range append(append(append(append([]leafSpec{}, leafCatalog...), structuredLeaves...), flagValueLeaves...), flagKindLeaves...) {
+		if _, dup := m[l.expr]; dup {
+			continue
+		}
 		m[l.expr] = l.class
 	}
 	return m
@@ -168,6 +195,7 @@ var embedCatalog = []struct {
 	{"EmbA", ""}, {"EmbB", ""},
 	// embeds whose members are collections of structs (listed twice: drawn more often)
 	{"EmbSlices", ""}, {"EmbSlicesTagged", ""}, {"EmbSlices", ""}, {"EmbSlicesTagged", ""},
+	{"EmbAliasElems", ""},
 }
 
 func keyFor(l leafSpec, source string) string {
@@ -214,7 +242,7 @@ func typesProfile(source string, behind bool) shape.Profile {
 	case "flag", "pflag":
 		// user leaf types that parse their own flag text (flag.Value without
 		// Get, flag.Getter, pflag.Value)
-		cat = append(append([]leafSpec{}, leafCatalog...), flagValueLeaves...)
+		cat = append(append(append([]leafSpec{}, leafCatalog...), flagValueLeaves...), flagKindLeaves...)
 	}
 	for _, l := range cat {
 		if k := keyFor(l, source); behind && k != "" && knownDefect(k) {
@@ -355,6 +383,9 @@ func statsOf(fs []shape.Field, st *shapeStats) {
 			st.classes["embed:"+f.Type] = true
 			if f.Type == "EmbNamed" || f.Type == "EmbPtr" {
 				st.classes["named-collection"] = true
+			}
+			if f.Type == "EmbAliasElems" {
+				st.classes["alias-elem"] = true
 			}
 			if f.Type == "EmbSlices" || f.Type == "EmbSlicesTagged" {
 				st.classes["embedded-struct-collections"] = true
